@@ -4,7 +4,7 @@ import itertools
 
 PROP = "C19"
 CONSTS = []
-THEOREMS = {"SmVerif.Props.C19": ["SmVerif.C19.c19_common_prefix_two", "SmVerif.C19.c19_resolves", "SmVerif.C19.c19_dot_iff"]}
+THEOREMS = {"SmVerif.Props.C19": ["SmVerif.C19.c19_common_prefix_two", "SmVerif.C19.c19_resolves", "SmVerif.C19.c19_dot_iff", "SmVerif.C19.c19_shape", "SmVerif.C19.c19_nonempty", "SmVerif.C19.c19_descend"]}
 TRUSTED = BASE_TRUST + ["model: lean/SmVerif/Model/Paths.lean mirrors make_relative_path and find_common_prefix_of_sorted_vec (utils.rs) for two items; str::split / Vec::sort_by_key (stable) / join as documented"]
 ASSUMPTIONS = ["paths are compared as component lists (a leading separator is not significant, as in the code)"]
 RULE = ("all ordered pairs of paths with 1..3 components over a 3-name pool, absolute/relative, both separators (exhaustive; 4 components in thorough), random pairs up to 6 components with doubled separators and '.'/'..' components (the latter outside the quantifier: compared model-vs-code only). "
